@@ -131,3 +131,30 @@ def opt_family(mode: str, version: int, thorough: bool = False):
         out.append(("opt:maybe-unused-value", prog(mode, ("MaybeSeq", ("maybe", "asset_holding_get", "AssetBalance", "U"), (("Int", 0), e.u(0)),
                                                           ("Return", ("MHas",)))), {}))
     return out
+
+
+def index_family(mode: str, version: int):
+    """variables whose slot number is taken in unusual places (the whole value of a branch arm, a Cond arm, an operand of
+    arithmetic) and that are otherwise only stored and immediately loaded: the slot optimiser must leave them alone.
+    TEAL-vs-TEAL only (the recipes have no reference semantics: slot numbers of automatic variables are the compiler's choice)."""
+    out = []
+    e = Env(mode, version)
+    V = {"a": {"t": "u"}, "b": {"t": "u"}, "c": {"t": "u"}}
+    pre = (("Store", "a", e.u(1)), ("Un", "Pop", ("Bin", "Add", ("Load", "a"), ("Int", 1))),
+           ("Store", "b", e.u(2)), ("Un", "Pop", ("Bin", "Add", ("Load", "b"), ("Int", 1))), e.tag(9))
+    ix = {
+        "if-arms": ("If", e.u(3), ("SlotIndex", "b"), ("SlotIndex", "a")),
+        "cond-arms": ("Cond", (e.u(3), ("SlotIndex", "a")), (("Int", 1), ("SlotIndex", "b"))),
+        "plain": ("SlotIndex", "a"),
+        "if-arm-and-arith": ("If", e.u(3), ("SlotIndex", "b"), ("Bin", "Add", ("SlotIndex", "a"), ("Int", 0))),
+        "nested-if": ("If", e.u(3), ("If", e.u(4), ("SlotIndex", "a"), ("SlotIndex", "b")), ("SlotIndex", "a")),
+    }
+    for nm, ie in ix.items():
+        out.append(("opt:index:load-%s" % nm, prog(mode, ("Seq",) + pre + (("Return", ("Bin", "Add", ("LoadAt", ie), ("Int", 0))),), dict(V)), {}))
+        out.append(("opt:index:store-%s" % nm, prog(mode, ("Seq",) + pre + (("StoreAt", ie, ("Int", 77)),
+                                                                           ("Return", ("Bin", "Add", ("Load", "a"), ("Load", "b")))), dict(V)), {}))
+    if version >= 4:
+        for nm, ie in ix.items():
+            body = ("Seq",) + pre + (("Return", ("Bin", "Add", ("LoadAt", ie), ("Int", 0))),)
+            out.append(("opt:index:sub-load-%s" % nm, prog(mode, ("Return", ("Call", "f")), dict(V), {"f": {"params": [], "ret": "u", "body": body}}), {}))
+    return out
